@@ -261,6 +261,14 @@ def validate_traces(module, traces, cfg=None, timeout=3600, env=None, chunk=1500
     len(events)+1."""
     from concurrent.futures import ThreadPoolExecutor
 
+    dump = os.environ.get("VERIF_DUMP_TRACES")      # selftest/run.py: keep a sample of the traces of every module
+    if dump and traces:
+        dp = os.path.join(dump, module + ".json")
+        if not os.path.exists(dp):
+            step = max(1, len(traces) // 60)
+            with open(dp, "w") as f:
+                json.dump({"module": module, "cfg": cfg,
+                           "traces": [{k: v for k, v in t.items() if k != "concrete"} for t in traces[::step][:60]]}, f)
     rejections = []
     stats = {"generated": 0, "distinct": 0, "validated": 0, "wall": 0.0, "runs": 0}
     t0 = time.time()
